@@ -174,6 +174,56 @@ Proof.
     unfold p. rewrite IH; try lia. ring.
 Qed.
 
+(* Marsden's identity on the piece polynomials:
+     (x - tau)^(k-1) = Sigma_i psi_{i,k}(tau) B_{i,k}(x),   psi_{i,k}(tau) = Prod_{r=1}^{k-1} (t_{i+r} - tau) *)
+Fixpoint psi (k i : nat) (tau : R) : R :=
+  match k with
+  | O => 1
+  | S k' => match k' with O => 1 | S _ => psi k' i tau * (t (i + k')%nat - tau) end
+  end.
+Lemma psi_SS k' i tau : psi (S (S k')) i tau = psi (S k') i tau * (t (i + S k')%nat - tau).
+Proof. reflexivity. Qed.
+Lemma psi_shift k' : forall i tau, psi (S (S k')) i tau = (t (S i) - tau) * psi (S k') (S i) tau.
+Proof.
+  induction k' as [|k IH]; intros i tau.
+  - rewrite psi_SS. cbn [psi]. replace (i + 1)%nat with (S i) by lia. ring.
+  - rewrite psi_SS, IH. rewrite (psi_SS k (S i)).
+    replace (S i + S k)%nat with (i + S (S k))%nat by lia. ring.
+Qed.
+
+Lemma marsden k : forall N x tau, (1 <= k)%nat -> (k - 1 <= j)%nat -> (j < N)%nat ->
+  sumf (fun i => psi k i tau * P k i x) N = (x - tau) ^ (k - 1).
+Proof.
+  induction k as [|k IH]; intros N x tau Hk Hj HN. lia.
+  destruct k as [|k'].
+  - cbn [psi Nat.sub pow]. rewrite (sumf_ext _ (fun i => P 1 i x)) by (intros; ring).
+    apply P1_sum; auto.
+  - set (p := fun i => P (S k') i x).
+    set (a := fun i => (x - t i) * inv0 (W i (S k'))).
+    set (q := fun i => psi (S (S k')) i tau).
+    set (q' := fun i => psi (S k') i tau).
+    assert (TEL : forall M, sumf (fun i => q i * P (S (S k')) i x) M
+                  = q O * a O * p O - q M * a M * p M + (x - tau) * sumf (fun i => q' (S i) * p (S i)) M).
+    { induction M. simpl. ring.
+      rewrite !sumf_S. rewrite IHM. rewrite P_SS. fold (p M) (p (S M)) (a M).
+      assert (E : q M * ((t (M + S (S k'))%nat - x) * inv0 (W (S M) (S k')) * p (S M))
+                  = (x - tau) * (q' (S M) * p (S M)) - q (S M) * a (S M) * p (S M)).
+      { unfold a. destruct (Req_EM_T (W (S M) (S k')) 0) as [Z|NZ].
+        - unfold p. rewrite (W_zero_P (S k') (S M) x Z). ring.
+        - unfold q, q'. rewrite (psi_shift k' M tau). rewrite (psi_SS k' (S M) tau).
+          assert (EW : t (S M + S k')%nat = W (S M) (S k') + t (S M)) by (unfold W; ring).
+          replace (M + S (S k'))%nat with (S M + S k')%nat by lia.
+          rewrite EW. rewrite inv0_n0 by auto. field. auto. }
+      rewrite Rmult_plus_distr_l. rewrite E. ring. }
+    rewrite TEL.
+    assert (p O = 0) as ->. { unfold p. apply P_support. lia. }
+    assert (p N = 0) as ->. { unfold p. apply P_support. lia. }
+    assert (sumf (fun i => q' (S i) * p (S i)) N = sumf (fun i => q' i * p i) (S N)) as ->.
+    { rewrite sumf_shift. assert (p O = 0) as ->. { unfold p. apply P_support. lia. } ring. }
+    unfold q', p. rewrite IH; try lia.
+    replace (S (S k') - 1)%nat with (S (S k' - 1)) by lia. simpl pow. ring.
+Qed.
+
 (* m = 1 branch of bspldnev on the piece polynomials *)
 Definition DP (k i : nat) (x : R) : R :=
   match k with
